@@ -162,6 +162,36 @@ func runC19(c *core.Ctx) {
 	}
 	c.Sample("iota1 + version 0x08 + 20 bytes")
 
+	// every value of the last data symbol (all padding-bit patterns) for each known version and exact payload length
+	for _, h := range []string{"iota", "atoi", "smr", "rms", "SMR"} {
+		for _, v := range []byte{0, 8, 16} {
+			l, _ := c19WantLen(v)
+			for fill := 0; fill < 2; fill++ {
+				data := make([]byte, l+1)
+				data[0] = v
+				for i := 1; i <= l; i++ {
+					data[i] = byte(i*13+int(v)) * byte(fill)
+				}
+				sym, _ := rb.ConvertBits(data, 8, 5, true)
+				for last := 0; last < 32; last++ {
+					s2 := append([]byte{}, sym...)
+					s2[len(s2)-1] = byte(last)
+					str := rb.EncodeSymbols(rb.Lower(h), s2)
+					if h != rb.Lower(h) {
+						str = rb.Upper(str)
+					}
+					if c19JudgeParse(c, str, "padding") {
+						nontriv++
+					}
+				}
+				// one more / one fewer symbol (payload length off by the regrouping granularity)
+				for _, extra := range [][]byte{append(append([]byte{}, sym...), 0), sym[:len(sym)-1]} {
+					c19JudgeParse(c, rb.EncodeSymbols(rb.Lower(h), extra), "padding")
+				}
+			}
+		}
+	}
+
 	// invalid Bech32 spellings of a valid address
 	good, _ := rb.Encode("iota", append([]byte{0}, bytes.Repeat([]byte{0x5A}, 32)...))
 	var bad []string
